@@ -16,8 +16,7 @@ instructions with operations of length {3,12,23,24,40}, end comment).  Families:
   L  every sentence length 0..2*width+1 x 3 word styles x group shapes
      x line width {40,79,120} x configuration deviations d <= 1 (2)    (asm, ctl)
   B  every word sequence of length <= k over {a, {, }, x}} as an instruction comment
-     x group size 1..4 x source line split, kept iff the documented brace rules can
-     express it                                                         (asm, ctl, html)
+     x group size 1..4 x source line split                              (asm, ctl, html)
   K  #LIST / #TABLE blocks (1-2 items / 1-2 rows x 2 cells, wrappable last column or not)
      in every position that formats them, with text before/after       (asm, html)
   N  line widths 31 and 24 (narrower than the longest word, so that one unbreakable word
@@ -117,13 +116,16 @@ REGSETS = (
 
 
 # ----------------------------------------------------------------------------- entry builders
-def _group_comment(style, length, n, salt, stats):
+def _group_comment(style, length, n, salt, stats, seam):
     words = M.sentence(length, style, salt)
     if not M.brace_form_allowed(words, n):
-        # documented brace rule: this text cannot be the comment of this group
+        # the nesting count of this text drops to zero before its end: the skool source needs more opening
+        # braces than sna2skool's wrapper has (the generator writes them for skool2asm/skool2html); for
+        # sna2skool such texts are enumerated in family B only (tagged brace_form=prefix-dip)
         if stats is not None:
-            stats.counters['brace_text_not_expressible'] += 1
-        words = M.sentence(length, 'dense', salt)
+            stats.counters['brace_text_needs_extra_opening_braces'] += 1
+        if seam == 'ctl':
+            words = M.sentence(length, 'dense', salt)
     return words
 
 
@@ -134,12 +136,8 @@ def entry_full(style, length, si, salt, seam, stats=None):
     layout = LAYOUTS[(si + length) % 3]
     regs = [(s, p, n, M.sentence(max(length - 3 * i, 0), style, salt + 3 + i))
             for i, (s, p, n) in enumerate(REGSETS[(si + length) % 3])]
-    ca = _group_comment(style, length, len(sa), salt + 1, stats)
-    cb = _group_comment(style, (length * 2 + 1) % (length + 7), len(sb), salt + 2, stats)
-    if seam == 'ctl':
-        # a control file cannot declare an empty comment for a group (the M/C directive
-        # without text declares no comment at all): expected as separate instructions
-        pass
+    ca = _group_comment(style, length, len(sa), salt + 1, stats, seam)
+    cb = _group_comment(style, (length * 2 + 1) % (length + 7), len(sb), salt + 2, stats, seam)
     ga = M.Group(sa, ca, mid=[M.sentence(length, style, salt + 6), M.sentence(length // 2, style, salt + 7)], layout=layout)
     gb = M.Group(sb, cb, mid=[M.sentence(length, style, salt + 8)], layout=LAYOUTS[(si + length + 1) % 3])
     tag = {'style': style, 'L': length, 'shape': list(sa), 'shape2': list(sb), 'layout': layout}
@@ -162,7 +160,8 @@ def entry_brace(words, n, layout, stats=None):
     oplens = ((3,), (12, 3), (3, 24, 3), (3, 3, 12, 3))[n - 1]
     g = M.Group(oplens, words, layout=layout)
     g2 = M.Group((3,), ['bb'], mid=[['a']])
-    return M.Entry({'brace_text': ' '.join(words), 'n': n, 'layout': layout}, ['a'], groups=[g, g2])
+    form = 'sna2skool' if M.brace_form_allowed(words, n) else 'prefix-dip'
+    return M.Entry({'brace_text': ' '.join(words), 'n': n, 'layout': layout, 'brace_form': form}, ['a'], groups=[g, g2])
 
 
 def block_tokens(kind, length, salt):
@@ -242,12 +241,10 @@ def doc_entries(key, seed, seam, stats=None):
         for words in brace_texts(key['k']):
             for n in (1, 2, 3, 4):
                 for layout in LAYOUTS:
-                    if n == 1 and layout != 'wrap' and not M.needs_braces(words, 1):
-                        continue
-                    if not M.brace_form_allowed(words, n):
-                        if stats is not None:
-                            stats.counters['brace_text_not_expressible'] += 1
-                        continue
+                    if layout != 'wrap' and (seam == 'ctl' or (n == 1 and not M.needs_braces(words, 1))):
+                        continue        # the source line split is immaterial here
+                    if not M.brace_form_allowed(words, n) and stats is not None:
+                        stats.counters['brace_text_needs_extra_opening_braces'] += 1
                     ents.append(entry_brace(words, n, layout))
     elif fam == 'K':
         for kind in BLOCK_KINDS:
@@ -682,8 +679,11 @@ def work_list(tier, seed):
     for key in chunked({'fam': 'B', 'k': bk}, seed, 'asm'):
         for w in WIDTHS3:
             work.append(('asm', key, dict(ASM_DEFAULT, line_width=w)))
-            work.append(('ctl', key, dict(CTL_DEFAULT, line_width=w)))
         work.append(('html', key, {}))
+    for key in chunked({'fam': 'B', 'k': bk}, seed, 'ctl'):
+        for cfg in ctl_cfgs:
+            if cfg['semicolons'] == 'c':
+                work.append(('ctl', key, cfg))
     # K: blocks
     klens = (1, 8, 30, 45, 70, 110) if quick else (1, 8, 20, 30, 36, 45, 70, 78, 110, 150)
     kkey = {'fam': 'K', 'lengths': list(klens)}
@@ -693,7 +693,7 @@ def work_list(tier, seed):
                 work.append(('asm', key, cfg))
         work.append(('html', key, {}))
     # L: length sweep
-    mod = 6 if quick else 1
+    mod = 6 if quick else 2
     for w in WIDTHS3:
         top = 2 * (w - 2) + 2
         for style in ('dense', 'mixed', 'brace'):
@@ -732,7 +732,7 @@ def _pos_name(pos):
 def _tags(seam, cfg, e, p):
     t = {'seam': seam, 'kind': p.kind, 'position': _pos_name(p.pos), 'line_width': cfg.get('line_width')}
     if e is not None:
-        for k in ('style', 'L', 'layout', 'n', 'block', 'pos', 'brace_text'):
+        for k in ('style', 'L', 'layout', 'n', 'block', 'pos', 'brace_text', 'brace_form'):
             if k in e.tag:
                 t[k] = e.tag[k]
     for k, v in cfg.items():
@@ -829,12 +829,15 @@ def run(tier, seed):
               '{} of the {} group shapes x line width {{40,79,120}} x configuration deviations d<={} (asm: {}; ctl: {}). '
               'B: every sequence of <= {} words over {{a,{{,}},x}}}} x group size 1..4 x 3 source line splits (asm/ctl at 3 widths, html). '
               'K: 6 block kinds x {} lengths x 4 contexts x 7 positions (asm x width/column-width deviations, html). N: 12 entries x line width {{31,24}} (asm). H: html length sweep.'.format(
-                  3 * len(W_LENGTHS) * (4 if quick else 12), 'every 6th (rotating with the length)' if quick else 'all', len(SHAPES),
+                  3 * len(W_LENGTHS) * (4 if quick else 12), 'every 6th (rotating with the length)' if quick else 'every 2nd (rotating with the length)', len(SHAPES),
                   1 if quick else 2, ASM_ALTS, CTL_ALTS, 4 if quick else 5, 6 if quick else 10),
         assumptions=[
-            'an instruction comment on a group is only generated if the documented brace rules can express it for every line split: with the '
-            'wrapper sna2skool writes ("{" + one more per unmatched "}", "{ {"/"} }" spacing, closing braces to balance) the nesting count must '
-            'stay positive after every proper prefix of the text (otherwise the comment terminates early by the documented rule); counted in guard brace_text_not_expressible',
+            'brace rules ("Braces in comments"): the skool source written for skool2asm/skool2html wraps a group comment exactly as sna2skool does '
+            '("{" + one more per unmatched "}", "{ {"/"} }" spacing, closing braces to balance); if the nesting count of the text drops to zero '
+            'before its end (guard brace_text_needs_extra_opening_braces) that wrapper would let the comment terminate early by the documented rule, '
+            'so the generator writes as many extra opening braces as the documented rules need',
+            'for sna2skool such prefix-dip texts are enumerated in family B only (entries tagged brace_form=prefix-dip); in families L and W the '
+            'ctl seam replaces them by a brace-free sentence of the same length',
             'a group whose C/M directive carries no text declares no comment in a control file: expected as ungrouped instructions (ctl seam)',
             'entry titles have at least one word (an entry header starts with its title)',
             'line length is counted in characters (a tab indent counts 1, as in skool2asm\'s own warning), without the line terminator',
@@ -847,7 +850,7 @@ def run(tier, seed):
             'paragraph separators or bullets)',
         ],
         required_guards=['runs_asm', 'runs_ctl', 'runs_html', 'group_size_1', 'group_size_2', 'group_size_3', 'group_size_4',
-                         'group_comment_with_braces', 'brace_text_not_expressible', 'fam_W_asm', 'fam_W_ctl', 'fam_L_asm', 'fam_L_ctl',
+                         'group_comment_with_braces', 'brace_text_needs_extra_opening_braces', 'fam_W_asm', 'fam_W_ctl', 'fam_L_asm', 'fam_L_ctl',
                          'asm_word_longer_than_comment_field', 'ctl_word_longer_than_comment_field', 'asm_operation_wider_than_line',
                          'asm_comment_ends_with_brace_in_group', 'ctl_comment_ends_with_brace_in_group', 'html_group_gt1', 'html_block_in_comment',
                          'fam_B_asm', 'fam_B_ctl', 'fam_B_html', 'fam_K_asm', 'fam_K_html', 'fam_N_asm', 'fam_H_html'],
